@@ -166,9 +166,9 @@ theorem spec_failed_batch_is_nop (α : Spec.State) (sts : List Stmt) (e : Err)
   unfold Spec.step at h ⊢
   simp only [Spec.stepCore] at h ⊢
   split at h
-  · rename_i heq; simp only [heq]
+  · rename_i heq; simp only
   · rename_i a' outs heq
-    simp only [heq]
+    simp only
     simp only at h
     cases hr : (α.commitC a').2 with
     | none => rw [hr] at h; cases h
@@ -187,7 +187,7 @@ theorem failed_auto_writes_nothing (σ : State) (st : Stmt) (e : Err)
     simp only [herr, if_true]
     rfl
   · rename_i herr
-    simp only [herr, if_false] at h
+    simp only at h
     exfalso
     have := outOfCommit_stmt_err h
     rw [this] at herr
